@@ -670,7 +670,7 @@ void var_opt_sketch<T, A>::reset() {
       data_[i].~T();
   }
 
-  if (curr_items_alloc_ < prev_alloc) {
+  if (curr_items_alloc_ != prev_alloc) { // smaller after growth, larger for a sketch restored from a small warm-up image
     const bool is_gadget = (marks_ != nullptr);
   
     allocator_.deallocate(data_, prev_alloc);
